@@ -34,7 +34,7 @@ Definition pre_to_string (cap val : Z) : bool :=
    not followed by another '{') *)
 Definition no_char (c : Z) (l : list Z) : Prop := Forall (fun x => x <> c) l.
 Definition starts_no_escape (l : list Z) : Prop :=
-  forall pre post, l = pre ++ 123 :: post -> no_char 123 pre -> match post with 123 :: _ => False | _ => True end.
+  forall pre post, no_char 123 pre -> l <> pre ++ 123 :: 123 :: post.
 Inductive fmt_ok : list Z -> Prop :=
 | fmt_plain l : starts_no_escape l -> fmt_ok l
 | fmt_escape pre inner post : no_char 123 pre -> no_char 125 inner -> fmt_ok post ->
